@@ -5,14 +5,14 @@ go 1.26.8
 require (
 	github.com/anishathalye/porcupine v1.3.0
 	gitlab.com/yawning/obfs4.git v0.0.0
+	gitlab.torproject.org/tpo/anti-censorship/pluggable-transports/goptlib v1.5.0
+	golang.org/x/crypto v0.14.0
 )
 
 require (
 	filippo.io/edwards25519 v1.0.0 // indirect
 	github.com/dchest/siphash v1.2.3 // indirect
 	gitlab.com/yawning/edwards25519-extra v0.0.0-20231005122941-2149dcafc266 // indirect
-	gitlab.torproject.org/tpo/anti-censorship/pluggable-transports/goptlib v1.5.0 // indirect
-	golang.org/x/crypto v0.14.0 // indirect
 )
 
 replace gitlab.com/yawning/obfs4.git => /repo
